@@ -9,11 +9,14 @@ Tie:      the same operation history on a real `storing.Share` (two real `Store`
 Oracle:   (independent of the Lean model) a reference written directly from the property: an
           OrderedDict of fields, a stamp, a deque; public-identifier test by `str.isidentifier`.
 
-A case is {"ops": [[kind, ...], ...]}; values are JSON null / int / str:
+A case is {"ops": [[kind, ...], ...]}; values are JSON null / int / str / {"f": float} / {"t": [ints]} (a tuple) /
+{"r": id} (the caller's mutable object number id: 0,1 are lists, 2,3 are dicts; ["mutate", id, n] appends to it):
   ["setValue", v] ["getValue"] ["update", pairs, form] ["change", pairs, form] ["create", pairs, form]
   ["stampNow"] ["setItem", k, v] ["getItem", k] ["delItem", k] ["contains", k] ["get", k]
   ["keys"] ["items"] ["values"] ["len"] ["pop", k] ["popitem"] ["setdefault", k, v] ["clear"]
-  ["insert", index, k, v]
+  ["insert", index, k, v] ["sift", null | [k…]] ["copy", "copy"|"copyDataDict"] ["reorder", pairs] ["setData", pairs]
+  ["setTruth", v] ["getTruth"] ["changeUnit", pairs, form] ["createUnit", pairs, form] ["fetchUnit", k]
+  ["ctorUnit", pairs]  (Share(unit=dict(pairs)))   ["mutate", id, n]
   ["push", v] ["pull"] ["gulp", v] ["spew"] ["setClock", i, t|null] ["attach", i|null]
 `form` says how the pairs are handed to the call; one kind, or several joined by "+" (the pairs are split evenly
 into that many positional / keyword arguments, in that order):
@@ -23,7 +26,7 @@ into that many positional / keyword arguments, in that order):
   "kw"       keyword arguments (only as the last part)
 A mapping collapses duplicate keys (last value, first position).  Stamps are in units of 1/8 s.
 """
-import collections
+import collections, struct
 import core
 
 CLASS_ATTRS = ["__class__", "__delattr__", "__dir__", "__doc__", "__eq__", "__format__", "__ge__",
@@ -31,6 +34,15 @@ CLASS_ATTRS = ["__class__", "__delattr__", "__dir__", "__doc__", "__eq__", "__fo
                "__le__", "__lt__", "__module__", "__ne__", "__new__", "__reduce__", "__reduce_ex__",
                "__repr__", "__setattr__", "__sizeof__", "__str__", "__subclasshook__", "__weakref__",
                "_change", "_show", "_sift"]        # dir(Data()) without __dict__ (outside the model)
+
+
+def ints_str(l):
+    l = list(l)
+    return "_".join("%d" % x for x in l) if l else "."
+
+
+def pool_contents(o):
+    return list(o.values()) if isinstance(o, dict) else list(o)
 
 
 def hx(s):
@@ -132,7 +144,10 @@ class CHECK(core.Check):
             "argument kind the code duck-types — list/tuple/generator of duples, dict, odict, another Share, "
             "MappingProxyType, UserDict, an object with only get/items/keys, keywords — alone or mixed as several "
             "positional plus keyword arguments, with duplicate and existing keys), item set/get/del/contains/get, keys/items/values/len, "
-            "pop/popitem/setdefault/clear/insert (any index), deck push/pull/gulp/spew (with None), stamp changes of two stores "
+            "pop/popitem/setdefault/clear/insert (any index), sift/copy/copyDataDict/reorder, assignment of a whole data "
+            "record, truth, the unit record (changeUnit/createUnit/fetchUnit/Share(unit=..)), values None/int/str/float/"
+            "tuple and four mutable objects of the caller (2 lists, 2 dicts) that are stored in fields and on the deck "
+            "and appended to afterwards (aliasing), deck push/pull/gulp/spew (with None), stamp changes of two stores "
             "(including None) and attach/detach; field names from a small pool of public names, plus (in ~25% of "
             "the cases) rejected names: leading underscore, digit first, '', spaces, punctuation, trailing newline, "
             "and (~10%) class attribute names of Data; non-trivial = a stamping operation with a store attached, "
@@ -141,17 +156,25 @@ class CHECK(core.Check):
                "'share'); compared after every operation: result, stamp, keys(), items(), list(deck), len()",
                "the model describes storing.py WITH fixes/D11b-data-delattr-keeps-odict-keys.patch, "
                "fixes/D11c-identpub-fullmatch.patch, fixes/D11d-share-setdefault-name-rule.patch, "
-               "fixes/D11f-share-insert-name-rule.patch and fixes/D11-class-attribute-names-are-not-fields.patch applied",
+               "fixes/D11f-share-insert-name-rule.patch, fixes/D11-class-attribute-names-are-not-fields.patch, "
+               "fixes/D11g-share-init-unit-typo.patch and fixes/D11h-share-reorder-works-on-fields.patch applied",
                "CPython attribute machinery (object.__getattribute__/__setattr__/__delattr__ on an instance "
                "whose __dict__ is an odict), the 30 names of dir(Data()) on CPython 3.12, re, deque",
                "stamps are multiples of 1/8 s (exact in binary64); field names are ASCII"]
     PARTIAL = ["C19_spew_none_iff_empty_partial: holds while no None was put on the deck with push (D11e)",
-               "not modelled: non-ASCII field names (Python's \\w is Unicode), del share['__dict__'], Share."
-               "sift/reorder/copy, truth/unit/owner/marks, values other than None/int/str"]
+               "C19_fields_ordered_map_reorder_partial: the closed form of reorder is proved for a one-pair call; for "
+               "several pairs only the invariant (sync_reorderFold) and the correspondence",
+               "not modelled: non-ASCII field names (Python's \\w is Unicode), del share['__dict__'], reorder with a "
+               "non-odict argument (ValueError), owner and marks (no interaction with stamp/fields), nested or "
+               "self-containing mutable values (the caller's objects hold ints), floats other than as opaque atoms"]
     TECHNIQUE = ("Lean 4 theorems (invariants over histories, refinement of the two-layer Data to an "
                  "insertion-ordered map) + differential correspondence after every step")
     LEVEL_TEXT = ("Proof on the model, every history: stamping rules (C19_value_update_stamp, C19_change_keeps_stamp, "
-                  "C19_create_stamps_iff_added, C19_create_never_overwrites, C19_only_stampers_stamp), fields as an "
+                  "C19_create_stamps_iff_added, C19_create_never_overwrites, C19_only_stampers_stamp, "
+                  "C19_data_assignment_stamps), sift/copy are reads of items() (C19_sift_copy_read), values are stored "
+                  "by reference, never copied (C19_values_are_aliased), truth/unit/deck traffic never touch fields or "
+                  "stamp and only deck operations touch the deck (C19_frames), the unit record obeys the name rule "
+                  "(C19_unit_names_public), fields as an "
                   "insertion-ordered map (C19_fields_ordered_map_* incl. positional insert, invariant C19_sync_invariant: items() never "
                   "raises), every name the share holds or shows is a public identifier for EVERY history, class attribute "
                   "names of Data included (C19_field_names_public, C19_keys_public; C19_legacy_sift documents the "
@@ -178,11 +201,17 @@ class CHECK(core.Check):
 
     def _val(self, rng):
         r = rng.random()
-        if r < 0.15:
+        if r < 0.13:
             return None
-        if r < 0.7:
+        if r < 0.58:
             return rng.randrange(-3, 50)
-        return rng.choice(["", "s", "hello", "7"])
+        if r < 0.72:
+            return rng.choice(["", "s", "hello", "7"])
+        if r < 0.80:
+            return {"f": rng.choice([0.5, 1.25, -2.0, 1e10, 0.1])}
+        if r < 0.86:
+            return {"t": [rng.randrange(5) for _ in range(rng.randrange(3))]}
+        return {"r": rng.randrange(4)}          # one of the caller's lists / dicts: aliased, never copied
 
     def _form(self, rng):
         r = rng.random()
@@ -212,6 +241,16 @@ class CHECK(core.Check):
                 k = self._key(rng, mode)
                 v = self._val(rng)
                 form = self._form(rng)
+                if rng.random() < 0.14:        # sift / copy / reorder / data record / truth / unit record
+                    ops.append(rng.choice([["sift", None], ["sift", [self._key(rng, mode) for _ in range(rng.randrange(4))]],
+                                           ["copy", rng.choice(["copy", "copyDataDict"])],
+                                           ["reorder", self._pairs(rng, mode)], ["reorder", self._pairs(rng, mode)],
+                                           ["setData", self._pairs(rng, mode)],
+                                           ["setTruth", v], ["getTruth"],
+                                           ["changeUnit", self._pairs(rng, mode), rng.choice(["list", "dict", "kw"])],
+                                           ["createUnit", self._pairs(rng, mode), rng.choice(["list", "dict", "kw"])],
+                                           ["fetchUnit", k], ["ctorUnit", self._pairs(rng, mode)]]))
+                    continue
                 if r < 0.07: ops.append(["setValue", v])
                 elif r < 0.10: ops.append(["getValue"])
                 elif r < 0.19: ops.append(["update", self._pairs(rng, mode), form])
@@ -233,6 +272,7 @@ class CHECK(core.Check):
                 elif r < 0.82: ops.append(["pull"])
                 elif r < 0.87: ops.append(["gulp", v])
                 elif r < 0.92: ops.append(["spew"])
+                elif r < 0.94: ops.append(["mutate", rng.randrange(4), rng.randrange(100)])
                 elif r < 0.97: ops.append(["setClock", rng.randrange(2), rng.choice([None, rng.randrange(0, 200)])])
                 else: ops.append(["attach", rng.choice([None, 0, 1])])
             yield {"ops": ops}
@@ -253,7 +293,12 @@ class CHECK(core.Check):
 
     # ---- implementation side
     def _show_val(self, v, key=None, sh=None):
-        """canonical value (None / int / str; anything else, e.g. a bound method of Data, by its type name)"""
+        """canonical value: None / int / str / float (bit pattern) / tuple of ints / one of the caller's mutable
+        objects BY IDENTITY with its present contents; anything else (e.g. a copy of a list, a bound method of
+        Data) by its type name"""
+        for i, o in enumerate(getattr(self, "_pool", [])):
+            if v is o:
+                return "r%d[%s]" % (i, ints_str(pool_contents(o)))
         if v is None:
             return "n"
         if isinstance(v, bool):
@@ -262,6 +307,12 @@ class CHECK(core.Check):
             return "i%d" % v
         if isinstance(v, str):
             return "s" + hx(v)
+        if isinstance(v, float):
+            return "f%d" % struct.unpack(">Q", struct.pack(">d", v))[0]
+        if isinstance(v, tuple) and all(isinstance(x, int) for x in v):
+            return "t" + ints_str(v)
+        if callable(v) or isinstance(v, type):
+            return "a" + (hx(key) if isinstance(key, str) else "?")
         return "?" + type(v).__name__
 
     def _stamp(self, t):
@@ -286,8 +337,13 @@ class CHECK(core.Check):
         except Exception as ex:
             its = "ERR " + type(ex).__name__
         dk = list(sh.deck)
-        return "%s | %s | %s | %s | %d" % (self._stamp(sh.stamp), ks, its,
-                                           ",".join(self._show_val(v) for v in dk) if dk else ".", len(sh))
+        try:
+            un = "-" if sh.unit is None else self._pairs_out(sh.unit.__dict__.items())
+        except Exception as ex:
+            un = "ERR " + type(ex).__name__
+        return "%s | %s | %s | %s | %d | %s | %s" % (self._stamp(sh.stamp), ks, its,
+                                                     ",".join(self._show_val(v) for v in dk) if dk else ".", len(sh),
+                                                     self._show_val(sh.truth), un)
 
     def impl(self, case):
         core.import_ioflo()
@@ -295,23 +351,28 @@ class CHECK(core.Check):
         storing.Store.Clear()
         stores = [storing.Store(name="s0"), storing.Store(name="s1")]
         sh = storing.Share(name="sh")
+        self._pool = [[], [], {}, {}]          # the caller's mutable objects
+        py = self._to_py
+
+        def parts_py(op):
+            return [(kind, [(kk, py(vv)) for kk, vv in seg]) for kind, seg in split_forms(op)]
         out = []
         for op in case["ops"]:
             k = op[0]
             try:
                 if k == "setValue":
-                    sh.value = op[1]; r = "unit"
+                    sh.value = py(op[1]); r = "unit"
                 elif k == "getValue":
                     r = "v:" + self._show_val(sh.value)
                 elif k in ("update", "change", "create"):
                     f = getattr(sh, k)
-                    pa, kwa = build_args(split_forms(op), storing)
+                    pa, kwa = build_args(parts_py(op), storing)
                     res = f(*pa, **kwa)
                     r = "unit" if res is sh else "?notself"
                 elif k == "stampNow":
                     r = "t:" + self._stamp(sh.stampNow())
                 elif k == "setItem":
-                    sh[op[1]] = op[2]; r = "unit"
+                    sh[op[1]] = py(op[2]); r = "unit"
                 elif k == "getItem":
                     r = "v:" + self._show_val(sh[op[1]], op[1], sh)
                 elif k == "delItem":
@@ -335,17 +396,53 @@ class CHECK(core.Check):
                 elif k == "popitem":
                     r = "p:" + self._pairs_out([sh.popitem()])
                 elif k == "setdefault":
-                    r = "v:" + self._show_val(sh.setdefault(op[1], op[2]))
+                    r = "v:" + self._show_val(sh.setdefault(op[1], py(op[2])))
                 elif k == "clear":
                     sh.clear(); r = "unit"
                 elif k == "insert":
-                    sh.insert(op[1], op[2], op[3]); r = "unit"
+                    sh.insert(op[1], op[2], py(op[3])); r = "unit"
+                elif k == "sift":
+                    res = sh.sift() if op[1] is None else sh.sift(list(op[1]))
+                    r = "p:" + self._pairs_out(res.items())
+                elif k == "copy":
+                    res = sh.copy() if op[1] == "copy" else sh.copyDataDict()
+                    r = "p:" + self._pairs_out(res.items())
+                elif k == "reorder":
+                    from ioflo.aid.odicting import odict
+                    sh.reorder(odict([(kk, py(vv)) for kk, vv in op[1]])); r = "unit"
+                elif k == "setData":
+                    sh.data = storing.Data([(kk, py(vv)) for kk, vv in op[1]]); r = "unit"
+                elif k == "setTruth":
+                    sh.truth = py(op[1]); r = "unit"
+                elif k == "getTruth":
+                    r = "v:" + self._show_val(sh.truth)
+                elif k in ("changeUnit", "createUnit"):
+                    pa, kwa = build_args(parts_py(op), storing)
+                    res = getattr(sh, k)(*pa, **kwa)
+                    r = "unit" if res is sh else "?notself"
+                elif k == "fetchUnit":
+                    got = sh.fetchUnit(op[1])
+                    if sh.unit is not None and op[1] in CLASS_ATTRS and op[1] != "__weakref__" \
+                            and not dict.__contains__(sh.unit.__dict__, op[1]):
+                        r = "v:a" + hx(op[1])      # fetchUnit still reads through getattr: a class attribute of Data
+                    else:
+                        r = "v:" + self._show_val(got, op[1])
+                elif k == "ctorUnit":
+                    s2 = storing.Share(name="u", unit=dict((kk, py(vv)) for kk, vv in op[1]))
+                    r = "p:" + ("-" if s2.unit is None else self._pairs_out(s2.unit.__dict__.items()))
+                elif k == "mutate":
+                    o = self._pool[op[1]]
+                    if isinstance(o, dict):
+                        o[len(o)] = op[2]
+                    else:
+                        o.append(op[2])
+                    r = "unit"
                 elif k == "push":
-                    sh.push(op[1]); r = "unit"
+                    sh.push(py(op[1])); r = "unit"
                 elif k == "pull":
                     r = "v:" + self._show_val(sh.pull())
                 elif k == "gulp":
-                    sh.deck.gulp(op[1]); r = "unit"
+                    sh.deck.gulp(py(op[1])); r = "unit"
                 elif k == "spew":
                     r = "v:" + self._show_val(sh.deck.spew())
                 elif k == "setClock":
@@ -367,11 +464,38 @@ class CHECK(core.Check):
         return out
 
     # ---- model side
-    def _venc(self, v):
-        return "n" if v is None else "i%d" % v if isinstance(v, int) else "s" + hx(v)
+    def _venc(self, v, pool=None):
+        """wire form of a case value; with `pool` (lists of ints) a mutable object also shows its contents"""
+        if v is None:
+            return "n"
+        if isinstance(v, bool):
+            return "?bool"
+        if isinstance(v, int):
+            return "i%d" % v
+        if isinstance(v, str):
+            return "s" + hx(v)
+        if "f" in v:
+            return "f%d" % struct.unpack(">Q", struct.pack(">d", float(v["f"])))[0]
+        if "fb" in v:
+            return "f%d" % v["fb"]
+        if "t" in v:
+            return "t" + ints_str(v["t"])
+        if "r" in v:
+            return "r%d" % v["r"] + ("" if pool is None else "[%s]" % ints_str(pool[v["r"]]))
+        return "?"
 
-    def _penc(self, ps):
-        return ";".join("%s=%s" % (hx(k), self._venc(v)) for k, v in ps) if ps else "."
+    def _penc(self, ps, pool=None):
+        return ";".join("%s=%s" % (hx(k), self._venc(v, pool)) for k, v in ps) if ps else "."
+
+    def _to_py(self, v):
+        if isinstance(v, dict):
+            if "f" in v:
+                return float(v["f"])
+            if "t" in v:
+                return tuple(v["t"])
+            if "r" in v:
+                return self._pool[v["r"]]
+        return v
 
     def requests(self, case):
         reqs = ["reset"]
@@ -387,6 +511,24 @@ class CHECK(core.Check):
                 reqs.append("%s %s" % (k, hx(op[1])))
             elif k == "insert":
                 reqs.append("insert %d %s %s" % (op[1], hx(op[2]), self._venc(op[3])))
+            elif k == "sift":
+                reqs.append("sift none" if op[1] is None else "sift " + (",".join(hx(x) for x in op[1]) if op[1] else "."))
+            elif k == "copy":
+                reqs.append("copy")
+            elif k in ("reorder", "setData", "ctorUnit"):
+                d = {}
+                for kk, vv in op[1]:
+                    d[kk] = vv
+                ps = list(d.items()) if k != "setData" else [tuple(x) for x in op[1]]
+                reqs.append("%s %s" % (k, self._penc(ps)))
+            elif k in ("changeUnit", "createUnit"):
+                reqs.append("%s %s" % (k, self._penc(eff_pairs(op))))
+            elif k in ("setTruth",):
+                reqs.append("setTruth %s" % self._venc(op[1]))
+            elif k == "fetchUnit":
+                reqs.append("fetchUnit %s" % hx(op[1]))
+            elif k == "mutate":
+                reqs.append("mutate %d %d" % (op[1], op[2]))
             elif k == "setClock":
                 reqs.append("setClock %d %s" % (0 if op[1] == 0 else 1, "n" if op[2] is None else "%d" % op[2]))
             elif k == "attach":
@@ -416,7 +558,11 @@ class CHECK(core.Check):
         clocks = [None, None]
         att = None
         deck = collections.deque()
-        venc = self._venc
+        opool = [[], [], [], []]           # contents of the caller's mutable objects
+        truth = None
+        U = None                            # the unit record
+        venc = lambda v: self._venc(v, opool)
+        penc = lambda ps: self._penc(ps, opool)
         known = []
         d11 = False                         # a class-attribute name was accepted: len() is no longer pinned
 
@@ -428,9 +574,9 @@ class CHECK(core.Check):
 
         for i, (op, line) in enumerate(zip(ops, out)):
             parts = line.split(" | ")
-            if len(parts) != 6:
+            if len(parts) != 8:
                 return "other", "op %d %s: %s" % (i, op, line)
-            res, o_stamp, o_keys, o_items, o_deck, o_len = parts
+            res, o_stamp, o_keys, o_items, o_deck, o_len, o_truth, o_unit = parts
             where = "op %d %s -> %s: " % (i, op[:3], res)
             k = op[0]
             err = res.startswith("ERR ")
@@ -547,12 +693,84 @@ class CHECK(core.Check):
             elif k == "keys":
                 expect_res = "k:" + self._keys(F)
             elif k == "items":
-                expect_res = "p:" + self._penc(list(F.items()))
+                expect_res = "p:" + penc(list(F.items()))
             elif k == "values":
                 expect_res = "l:" + (",".join(venc(v) for v in F.values()) if F else ".")
             elif k == "len":
                 if not d11:
                     expect_res = "n:%d" % len(F)
+            elif k == "sift":
+                if op[1] is None:
+                    expect_res = "p:" + penc(list(F.items()))
+                elif all(x in F for x in op[1]):
+                    seen = collections.OrderedDict((x, F[x]) for x in op[1])
+                    expect_res = "p:" + penc(list(seen.items()))
+                elif not err:
+                    return "other", where + "sift of a name that is not a field did not raise"
+            elif k == "copy":
+                expect_res = "p:" + penc(list(F.items()))
+            elif k == "reorder":
+                d = collections.OrderedDict()
+                for kk, vv in op[1]:
+                    d[kk] = vv
+                bad = [kk for kk in d if kk not in F and not is_public(kk)]
+                if bad:
+                    if not err:
+                        return "other", where + "field name %r is not a public identifier but was accepted" % (bad[0],)
+                elif err:
+                    return "other", where + "reorder raised"
+                else:
+                    for kk, vv in d.items():
+                        F[kk] = vv
+                        F.move_to_end(kk)
+                    expect_res = "unit"
+            elif k == "setData":
+                bad = [kk for kk, _ in op[1] if not is_public(kk)]
+                if bad:
+                    if not err:
+                        return "other", where + "field name %r is not a public identifier but was accepted" % (bad[0],)
+                elif err:
+                    return "other", where + "assigning a data record with public names raised"
+                else:
+                    F = collections.OrderedDict()
+                    for kk, vv in op[1]:
+                        F[kk] = vv
+                    stamp = now(); expect_res = "unit"; d11 = False
+            elif k == "setTruth":
+                truth = op[1]; expect_res = "unit"
+            elif k == "getTruth":
+                expect_res = "v:" + venc(truth)
+            elif k in ("changeUnit", "createUnit"):
+                ps = eff_pairs(op)
+                if U is None:
+                    U = collections.OrderedDict()
+                bad = [kk for kk, _ in ps if not is_public(kk) and kk not in U]
+                if bad:
+                    U = None if o_unit in ("-",) or o_unit.startswith("ERR") else collections.OrderedDict(
+                        (("" if e.partition("=")[0] == "-" else bytes.fromhex(e.partition("=")[0]).decode()),
+                         self._vdec(e.partition("=")[2])) for e in ([] if o_unit == "." else o_unit.split(";")))
+                    if U is not None and any(not is_public(kk) for kk in U):
+                        return "other", where + "a unit name that is not a public identifier was accepted"
+                elif err:
+                    return "other", where + "raised although every unit name is a public identifier"
+                else:
+                    for kk, vv in ps:
+                        if k == "changeUnit" or kk not in U:
+                            U[kk] = vv
+                    expect_res = "unit"
+            elif k == "fetchUnit":
+                if is_public(op[1]):
+                    expect_res = "v:" + venc(None if U is None else U.get(op[1]))
+            elif k == "ctorUnit":
+                d = collections.OrderedDict()
+                for kk, vv in op[1]:
+                    d[kk] = vv
+                if all(is_public(kk) for kk in d):
+                    expect_res = "p:" + penc(list(d.items()))
+                elif not err:
+                    return "other", where + "a unit name that is not a public identifier was accepted"
+            elif k == "mutate":
+                opool[op[1]].append(op[2]); expect_res = "unit"
             elif k == "push":
                 deck.append(op[1]); expect_res = "unit"
             elif k == "gulp":
@@ -593,7 +811,7 @@ class CHECK(core.Check):
                     kk = "" if hk == "-" else bytes.fromhex(hk).decode()
                     if not is_public(kk):
                         return "other", where + "field %r is not a public identifier" % (kk,)
-                    if kk in F and F[kk] != self._vdec(hv) and k == "create":
+                    if kk in F and self._venc(F[kk]) != self._venc(self._vdec(hv)) and k == "create":
                         return "other", where + "create overwrote the existing field %r" % (kk,)
                     newF[kk] = self._vdec(hv)
                 F = newF
@@ -603,11 +821,16 @@ class CHECK(core.Check):
             want_stamp = "n" if stamp is None else "%d" % stamp
             if o_stamp != want_stamp:
                 return "other", where + "stamp is %s, the rules give %s" % (o_stamp, want_stamp)
-            if o_keys != self._keys(F) or o_items != self._penc(list(F.items())):
+            if o_keys != self._keys(F) or o_items != penc(list(F.items())):
                 return "other", where + "fields are %s / %s, an insertion-ordered mapping gives %s" % (
-                    o_keys, o_items, self._penc(list(F.items())))
+                    o_keys, o_items, penc(list(F.items())))
             if not d11 and o_len != "%d" % len(F):
                 return "other", where + "len() is %s with %d fields" % (o_len, len(F))
+            if o_truth != venc(truth):
+                return "other", where + "truth is %s, expected %s" % (o_truth, venc(truth))
+            want_unit = "-" if U is None else penc(list(U.items()))
+            if o_unit != want_unit:
+                return "other", where + "unit record is %s, expected %s" % (o_unit, want_unit)
             want_deck = ",".join(venc(v) for v in deck) if deck else "."
             if o_deck != want_deck:
                 return "other", where + "deck is %s, FIFO gives %s" % (o_deck, want_deck)
@@ -625,6 +848,12 @@ class CHECK(core.Check):
             return int(s[1:])
         if s.startswith("s"):
             return "" if s[1:] == "-" else bytes.fromhex(s[1:]).decode()
+        if s.startswith("f"):
+            return {"fb": int(s[1:])}
+        if s.startswith("t"):
+            return {"t": [] if s[1:] == "." else [int(x) for x in s[1:].split("_")]}
+        if s.startswith("r"):
+            return {"r": int(s[1:].split("[")[0])}
         return s
 
     # ---- known findings: the region predicates are the Lean definitions, evaluated by the driver
